@@ -229,7 +229,7 @@ func genConc(t *rapid.T) Conc {
 
 func TestConcurrent(t *testing.T) {
 	pbt.Run(t, pbt.Sub[Conc]{
-		Name: "concurrent", Quick: 2400, Thorough: 48000,
+		Name: "concurrent", Quick: 1800, Thorough: 24000,
 		Gen: genConc, Check: checkConc,
 	})
 }
